@@ -7,6 +7,8 @@ combination.
 -/
 import Helm.Model.Reuse
 import Helm.Lemmas.Values
+import Helm.Gen.Tables
+import Helm.Spec.Skeletons
 
 namespace Helm.Props.C13
 open Helm.Values Helm.Reuse
@@ -140,5 +142,13 @@ example :
       | .ok r => (r.config.get? "a", lookupPath r.config ["t", "k"], lookupPath r.config ["t", "m"], r.config.get? "z")
       | .err _ => (none, none, none, none)) =
     (none, some (.num "9"), some (.num "2"), some (.bool true)) := by rfl
+
+/-- The three carry-over flags are bound to the three fields the modes are decided from (regenerated from
+pkg/cmd/upgrade.go at every run). -/
+theorem carry_over_flags_bound :
+    Helm.Spec.forwardsAll Helm.Gen.upgradeFlags
+      [("reset-values", "client.ResetValues"), ("reuse-values", "client.ReuseValues"),
+       ("reset-then-reuse-values", "client.ResetThenReuseValues")] = true := by
+  decide
 
 end Helm.Props.C13
